@@ -11,6 +11,7 @@ ref/params.py against the header layouts), every stack exactly the value of the 
 import ctypes
 
 from ..core import Harness
+from .. import bee2
 from ..ref import params as M
 from ..ref import ec, gf2poly
 
@@ -1495,6 +1496,77 @@ def unit_keys(ctx):
 CFG = {"unit_primes_window": "rel64"}
 
 
+# ---------------------------------------------------------------------------------------------------------------
+# bignParamsGen (alg. 6.1.3): the seed walk and the derivation b = B(seed) mod p, observed through its callbacks.
+# Point counting is the caller's (calc_q); here calc_q records (seed, b) and answers ERR_NO_RESULT, so the function
+# walks on; after `steps` curves it answers an error code, which bignParamsGen must hand back.
+# ---------------------------------------------------------------------------------------------------------------
+
+_PGEN_CB = ctypes.CFUNCTYPE(ctypes.c_uint32, ctypes.c_void_p, ctypes.c_void_p)
+
+
+def unit_bign_gen(ctx):
+    lib, rng, rep = ctx.lib, ctx.rng, Reporter(ctx)
+    name = ctx.params["set"]
+    H = hash_fn(lib)
+    pp = lib.alloc(336, 0)
+    if lib.bignParamsStd(pp, lib.cstr(name)) != 0:
+        raise Harness("bignParamsStd(%s) failed" % name)
+    P = M.BIGN.unpack(lib.rd(pp, 336))
+    lib.release()
+    l = P["l"]
+    no = l // 4
+    pv, av = M.le(P["p"][:no]), M.le(P["a"][:no])
+    NO_RESULT, STOP = bee2.errcode("ERR_NO_RESULT"), bee2.errcode("ERR_BAD_RNG")
+    lib.declare("bignParamsGen", "u", "pffp")          # (params, calc_q, on_seed, state): callback typedefs are not parsed
+    std_seed = M.le(P["seed"])
+    seeds = [std_seed, 0, 0xFF, 0xFE, 0xFFFF, 0x12FF, 0xFFFFFFFF, 0xFFFFFFFFFFFFFFFF, 0xFFFFFFFFFFFFFFFE, 0x00FFFFFFFFFFFFFF,
+             0x01FFFFFFFFFFFF, 0x7FFF, 0xFFFFFF00FF]
+    seeds += [rng.getrandbits(64) for _ in range(ctx.params.get("random", 4))]
+    seeds += [(rng.getrandbits(56) << 8) | 0xFF for _ in range(ctx.params.get("random", 4))]
+    steps = ctx.params.get("steps", 3)
+    for s0 in seeds:
+        cls = "bignParamsGen:walk:" + ("std-seed" if s0 == std_seed else "low-octet-FF" if s0 & 0xFF == 0xFF else
+                                        "low-octet-FE" if s0 & 0xFF == 0xFE else "other")
+        if not ctx.case(["bignParamsGen", name, s0], cls):
+            continue
+        seen, curves = [], []
+
+        def on_seed(params, state):
+            seen.append(M.le(ctypes.string_at(params + 8 + 5 * 64, 8)))
+            return 0
+
+        def calc_q(params, state):
+            raw = ctypes.string_at(params, 336)
+            curves.append((M.le(raw[8 + 5 * 64:8 + 5 * 64 + 8]), M.le(raw[8 + 2 * 64:8 + 2 * 64 + no]), any(raw[8 + 2 * 64 + no:8 + 3 * 64])))
+            return NO_RESULT if len(curves) < steps else STOP
+        c1, c2 = _PGEN_CB(on_seed), _PGEN_CB(calc_q)
+        buf = lib.mk(M.BIGN.pack(dict(P, seed=M.to_le(s0, 8), b=bytes(64), q=bytes(64), yG=bytes(64))))
+        r = lib.bignParamsGen(buf, ctypes.cast(c2, ctypes.c_void_p).value, ctypes.cast(c1, ctypes.c_void_p).value, 0)
+        lib.release()
+        det = {"set": name, "seed0": s0, "ret": bee2.errname(r), "seeds_seen": seen[:40], "curves": [[a, b] for a, b, _ in curves]}
+        ctx.digest(r, seen, [(a, b) for a, b, _ in curves])
+        if r != STOP:
+            rep("bignParamsGen:ret:callback-code-not-returned", "bignParamsGen must return the code of calc_q", det)
+        # 1. the walk: seed0, seed0 + 1, ... modulo 2^64, one on_seed per candidate
+        want = [(s0 + i) % (1 << 64) for i in range(len(seen))]
+        if seen != want:
+            rep("bignParamsGen:seed-walk", "candidate seeds are not seed, seed + 1, ... (mod 2^64)", dict(det, expected=want[:40]))
+            continue
+        # 2. every candidate: b = B(seed) mod p; calc_q is reached exactly when 4a^3 + 27b^2 != 0 and (b/p) = 1
+        exp_curves = []
+        for sd in seen:
+            b = M.bign_B(P["p"][:no], P["a"][:no], M.to_le(sd, 8), H) % pv
+            if (4 * av ** 3 + 27 * b * b) % pv != 0 and ec.legendre(b, pv) == 1:
+                exp_curves.append((sd, b))
+        if [(a, b) for a, b, _ in curves] != exp_curves[:len(curves)] or len(exp_curves) != len(curves):
+            rep("bignParamsGen:b-of-seed", "the curves handed to calc_q are not (seed, B(seed) mod p) for the admissible seeds of the walk",
+                dict(det, expected=[[a, b] for a, b in exp_curves]))
+        if any(z for _, _, z in curves):
+            rep("bignParamsGen:unused-octets", "unused octets of params->b not zero when calc_q is called", det)
+        ctx.classes["bignParamsGen:candidates"] += len(seen)
+
+
 def jobs(tier, scale=1.0):
     q = tier == "quick"
     J = []
@@ -1536,6 +1608,8 @@ def jobs(tier, scale=1.0):
         nchunk = 1 if q else 4
         for ch in range(nchunk):
             add("unit_bign", set=nm, flips=fl, chunk=ch, chunks=nchunk)
+    for nm in BIGN_STD:
+        add("unit_bign_gen", set=nm, random=max(1, int((2 if q else 12) * scale)), steps=2 if q else 4)
     for nm in G12S_STD:
         nchunk = 1 if q else 3
         for ch in range(nchunk):
